@@ -35,11 +35,15 @@ OutIdx(zfo) == IF zfo THEN 2 ELSE 1
 Charged(st, who, zfo) == B!Sub(prev.userBal[who][InIdx(zfo)], st.userBal[who][InIdx(zfo)])
 Paid(st, who, zfo)    == B!Sub(st.userBal[who][OutIdx(zfo)], prev.userBal[who][OutIdx(zfo)])
 
-Slack(nb) == B!OfInt(Dust * (nb + 1))
+\* Dust units per bucket touched, plus 2e-18 of the amount charged: the code multiplies the net input by the
+\* fee ratio f/(1-f) held as an 18-decimal Dec rounded up, so on the "bounded rounding" side (never on the
+\* "never exceeds the curve" side) it may be off by that relative amount (1.6e15 units on a 1.8e33-unit swap
+\* in the first thorough run with the widened recorder)
+Slack2(nb, amt) == B!Add(B!OfInt(Dust * (nb + 1)), B!Add(B!FloorDiv(B!Mul(amt, B!OfInt(2)), B!Pow(B!OfInt(10), 18)), B!One))
 
 ExactInOK(C, zfo, ain, aout, amt) ==
     LET W  == IdealIn(C, zfo, RInt(ain))
-        k  == Slack(W.nb)
+        k  == Slack2(W.nb, ain)
         a2 == B!Sub(ain, k)
     IN  /\ B!Le(ain, amt) /\ ain.s > 0 /\ aout.s > 0
         \* the ideal places the whole charged amount, except for at most k units of per-bucket round-up
@@ -52,7 +56,7 @@ ExactInOK(C, zfo, ain, aout, amt) ==
 
 ExactOutOK(C, zfo, ain, aout, amt) ==
     LET V  == IdealOut(C, zfo, RInt(aout))
-        k  == Slack(V.nb)
+        k  == Slack2(V.nb, ain)
         V2 == IdealOut(C, zfo, RInt(B!Add(aout, k)))
     IN  /\ B!Le(aout, amt) /\ ain.s > 0 /\ aout.s > 0
         /\ (V.ok \/ RLe(V.left, RInt(k)))
